@@ -1180,8 +1180,26 @@ TARGETS = {
 }
 
 
+def load_plugins():
+    """tools/py2v_*.py may add targets: each defines TARGETS = {"GenX.v": gen(repo) -> Out}; they import this module as py2v."""
+    import glob
+    import importlib.util
+    here = os.path.dirname(os.path.abspath(__file__))
+    sys.modules.setdefault("py2v", sys.modules[__name__])
+    for path in sorted(glob.glob(os.path.join(here, "py2v_*.py"))):
+        spec = importlib.util.spec_from_file_location(os.path.basename(path)[:-3], path)
+        mod = importlib.util.module_from_spec(spec)
+        try:
+            spec.loader.exec_module(mod)
+            TARGETS.update(getattr(mod, "TARGETS", {}))
+        except Exception as ex:   # fail closed: a broken plugin produces a failed generation for its file name
+            name = "Gen" + os.path.basename(path)[5:-3].capitalize() + ".v"
+            TARGETS[name] = (lambda ex=ex: (_ for _ in ()).throw(ex))
+
+
 def main():
     repo, outdir = sys.argv[1], sys.argv[2]
+    load_plugins()
     os.makedirs(outdir, exist_ok=True)
     report = {}
     for fname, gen in TARGETS.items():
